@@ -387,7 +387,7 @@ def handle (line : String) : String :=
   | ["shadow", h, ds, sc, r] =>
     match parseHier h, parseDeclList ds, optName sc, r.toNat? with
     | some H, some dl, some scope, some r =>
-      (match Model.AccessDecl.access H Generated.C07Access.fallbackRel (declsOf dl) scope r with
+      (match Model.AccessDecl.accessJ H Generated.C07Access.fallbackRel Generated.C07Access.judgeRel (declsOf dl) scope r with
        | .allowed => "1" | .denied => "0" | .stuck => "stuck" | .nomember => "nomember")
     | _, _, _, _ => "bad-op"
   | "acc" :: h :: rest =>
